@@ -172,6 +172,54 @@ class C15(Check):
     }
 
     def detect_fixes(self):
+        """Which variant of the code is under test — decided by BEHAVIOUR: one probe frame per repair on which the two variants differ
+        in something the run compares anyway (raises / does not, a layer parsed / not, an attribute).  The shape of the source is only a
+        cross-check (evidence field variant_notes): a behaviour-preserving rewrite of a repaired function must not change the answer."""
+        src_fix, src_var = self._detect_by_source()
+        W = dict(self.WITNESSES); F = dict(self._frames)
+        def parse(b):
+            try: return self.ethernet(raw=bytes(b))
+            except Exception: return None
+        def raises(name): return parse(bytes.fromhex(W[name])) is None
+        def layer(p, cls):
+            n = 0
+            while isinstance(p, self.packet_base) and n < 100:
+                if type(p).__name__ == cls: return p
+                p = p.next; n += 1
+            return None
+        def depth(p):
+            n = 0
+            while isinstance(p, self.packet_base) and n < 1000: n += 1; p = p.next
+            return n
+        fix, var = [], []
+        try:
+            nest = bytes(12) + b"\x81\x00" + b"\x00\x01\x81\x00" * 40 + b"ab"
+            if depth(parse(nest)) == 32: fix.append("K1")
+            if not raises("known_k5v") and not raises("known_k5i"): fix.append("K5")
+            for k in ("k6", "k7", "k8", "k9", "k10", "k13", "k14"):
+                if not raises("known_" + k): fix.append(k.upper())
+            d = layer(parse(F["bootp"]), "dhcp")
+            if d is not None and hasattr(d, "options"): fix.append("K16")
+            d = layer(parse(F["dns-q-short"]), "dns")
+            if d is not None and d.parsed: var.append("D46")
+            d = layer(parse(F["ip6-hbh-frag"]), "ipv6")
+            if d is not None and d.parsed: var.append("D48")
+            d = layer(parse(F["eap-req-id"]), "eap")
+            if d is not None and isinstance(d.next, bytes): var.append("D49")
+            f = bytes(F["rip-resp"]); d = layer(parse(f[:-4] + b"\xff\xff\xff\xff"), "rip")
+            if d is not None and d.entries and d.entries[-1].metric > 0: var.append("D50")
+        except Exception as e:
+            self.variant_notes.append("behaviour probes failed (%s: %s); using the source marks" % (type(e).__name__, e))
+            fix, var = src_fix, src_var
+        fix.sort(key=lambda k: int(k[1:])); var.sort()
+        if (fix, var) != (src_fix, src_var):
+            self.variant_notes.append("source marks say %s, behaviour says %s (behaviour is used)" % (src_fix + src_var, fix + var))
+        self.vars = var
+        return fix
+
+    variant_notes = []
+
+    def _detect_by_source(self):
         src = {}
         def body(mod, qual):
             path = os.path.join(self.pktdir, mod + ".py")
@@ -183,9 +231,9 @@ class C15(Check):
             # comments and line continuations out, whitespace collapsed: the marks are matched on the statements
             lines = [re.sub(r"#.*$", "", l).rstrip("\\") for l in src[path][r[0] - 1:r[1]]]
             return re.sub(r"\s+", " ", " ".join(lines))
-        self.vars = sorted(k for k, marks in self.VAR_MARKS.items() if all(re.search(rx, body(mod, qual)) for mod, qual, rx in marks))
-        return sorted((k for k, marks in self.FIX_MARKS.items() if all(re.search(rx, body(mod, qual)) for mod, qual, rx in marks)),
-                      key=lambda k: int(k[1:]))
+        return (sorted((k for k, marks in self.FIX_MARKS.items() if all(re.search(rx, body(mod, qual)) for mod, qual, rx in marks)),
+                       key=lambda k: int(k[1:])),
+                sorted(k for k, marks in self.VAR_MARKS.items() if all(re.search(rx, body(mod, qual)) for mod, qual, rx in marks)))
 
     # ------------------------------------------------------------------ observing the real code
     def _where(self, e):
@@ -838,7 +886,7 @@ class C15(Check):
     def extra_evidence(self):
         for fid, kf in sorted(self.soft_known.items()):
             print("KNOWN-FINDING: property=%s %s %s" % (self.id, fid, kf.get("what", "")))
-        return {"repairs_detected_in_source": self.fixes + self.vars, "known_pack_print_findings_hit": sorted(self.soft_known), "distinct_failure_keys": dict(sorted(self.keys_seen.items())), "technique": self.technique, "level_text": self.level_text, "level_note": self.level_note, "design_ref": self.design_ref}
+        return {"repairs_detected_by_behaviour": self.fixes + self.vars, "variant_notes": self.variant_notes, "known_pack_print_findings_hit": sorted(self.soft_known), "distinct_failure_keys": dict(sorted(self.keys_seen.items())), "technique": self.technique, "level_text": self.level_text, "level_note": self.level_note, "design_ref": self.design_ref}
 
 C15.theorems = ["Pox.C15." + t for t in (
     "parse_total_with", "parse_total_partial", "parse_total_of_no_known", "parse_total_fixed", "parse_total_guarded", "parse_total", "nesting_defect",
